@@ -538,10 +538,10 @@ class Evaluator(Run):
                 raise Unsupported("// or % on reals")
             self.fail_if(y == 0, "ZeroDivisionError", lab)
             # z3 div/mod are euclidean; python floors
-            q = z3.If(y > 0, x / y, z3.If(x % y == 0, x / y, x / y - 1)) if False else None
             pm = z3.If(y > 0, x % y, z3.If(x % y == 0, z3.IntVal(0), x % y + y))
-            pq = z3.If(y > 0, x / y, z3.If(x % y == 0, x / y, x / y + 1))
-            # (for y<0: euclid: x = y*q + r, 0<=r<|y|; python: r' = r + y (if r != 0), q' = q + 1)
+            pq = z3.If(y > 0, x / y, z3.If(x % y == 0, x / y, x / y - 1))
+            # (for y<0: euclid: x = y*q + r, 0<=r<|y|; python floors: r' = r + y (if r != 0), q' = q - 1, since x = y*(q-1) + (r+y);
+            #  the conformance selftest found `q + 1` here - 7 // -2 is -4)
             if isinstance(op, ast.Mod):
                 return V(T.Int, pm)
             return V(T.Int, pq)
